@@ -495,52 +495,3 @@ fn compress_tail(lo: u8, hi: u8, wb: i32) {
     core::mem::forget(c);
 }
 
-// ------------------------------------------------------------------------------------------
-// C11, window_bits 12..=14: one step of the REAL level-1 back end from a compressor whose
-// dictionary cursors are arbitrary: no recorded match may reach beyond the declared window.
-
-/// Largest distance symbol whose whole range lies inside a 2^w-byte window (RFC 1951: symbols
-/// 2k, 2k+1 cover distances 2^k+1 ..= 2^(k+1)).
-fn max_dist_symbol(w: u8) -> usize {
-    2 * w as usize - 1
-}
-
-fn fast_window(w: u8) {
-    let mut c = CompressorOxide::with_params(DataFormat::Zlib, 1, CompressionStrategy::Default, w);
-    let mut s = c.verif_scalars();
-    // the dictionary holds zeros (fresh arrays); cursors as after an arbitrary amount of input
-    let pos: usize = kani::any();
-    kani::assume(pos >= 65536 && pos < (1usize << 40));
-    s.lookahead_pos = pos;
-    s.lookahead_size = 4;
-    s.code_buf_dict_pos = pos;
-    let dsz: usize = kani::any();
-    kani::assume(dsz <= 32768 - 4);
-    s.dict_size = dsz;
-    s.saved_lit = 0;
-    c.verif_set_scalars(&s);
-    let mut out = [0u8; 8];
-    let r = compress(&mut c, &[], &mut out, TDEFLFlush::Sync);
-    assert!(r.0 == TDEFLStatus::Okay);
-    assert!(c.verif_route_mark() & dcore::verif::MARK_FLUSH_BLOCK != 0);
-    // header declares a 2^w window (CINFO = w - 8): every distance symbol counted for this block lies inside it
-    let sym: usize = kani::any();
-    kani::assume(sym > max_dist_symbol(w) && sym < 30);
-    assert!(c.verif_huff_count(1, sym) == 0);
-    kani::cover!(c.verif_huff_count(1, 0) != 0 || c.verif_huff_count(1, 10) != 0);
-    core::mem::forget(c);
-}
-
-#[kani::proof]
-#[kani::unwind(36)]
-#[kani::stub(dcore::flush_block, dcore::verif::mark_flush_block)]
-fn s_fast_window_w12() {
-    fast_window(12)
-}
-
-#[kani::proof]
-#[kani::unwind(36)]
-#[kani::stub(dcore::flush_block, dcore::verif::mark_flush_block)]
-fn s_fast_window_w14() {
-    fast_window(14)
-}
